@@ -4,31 +4,32 @@ import gens, blk, compcases as cc
 from capi import Lib, Buf
 from ctypes import c_int, byref
 
-THEOREMS = ["C06_fast_generic_strict", "C06_fast_extState_strict", "C06_fastReset_history_strict", "C06_destSize_strict", "C06_hc_mid_strict", "C06_hc_mid_destSize_strict"]
-CORRESPONDENCE = [cc.MID_CORR,
+THEOREMS = ["C06_fast_generic_strict", "C06_fast_extState_strict", "C06_fastReset_history_strict", "C06_destSize_strict", "C06_hc_mid_strict", "C06_hc_mid_destSize_strict", "C06_hc_chain_strict"]
+CORRESPONDENCE = [cc.MID_CORR, cc.CHAIN_CORR, cc.CHAIN_SEARCH_CORR,
                   "Model.FastApi one-shot entry points == liblz4 (bytes, return value, context) on the same cases"]
-ORACLES = ["block", "mid"]
+ORACLES = ["block", "mid", "chain"]
 RULE = ("every successful output of {default, fast, extState, fastReset history, destSize, HC one-shot levels 1..12 (+favorDecSpeed), HC destSize, "
         "fast_continue and HC_continue on contiguous streams (history = previous blocks)} x capacity {bound, bound-1, n, n/2, random} is given to the decoder "
         "extracted from the Coq block specification WITH the end-of-block restrictions (strict_valid) and the right history; "
         "non-trivial = block with >= 1 match; distinct = distinct (input, entry point, parameter, capacity)")
 TRUSTED = ["Spec/BlockSpec.v renders doc/lz4_Block_format.md (offset range, history reach, last 5 literals, last match >= 12 bytes from the end)",
-           "HC and streaming variants: direct oracle only (streaming/dictionary theorems: C11/C12)"]
+           "HC levels 1-2 (LZ4MID) and 3-9 (hash chain) one-shot entry points are modelled and tied; HC levels 10-12 and the streaming variants: direct oracle only (streaming/dictionary theorems: C11/C12)"]
 ASSUMPTIONS = ["64-bit little-endian target"]
 
 def build(tier):
     from vlib import build_lib
-    return {"lib": build_lib("default"), "midstate": cc.midstate_lib()}
+    return {"lib": build_lib("default"), "midstate": cc.midstate_lib(), "chainstate": cc.chainstate_lib()}
 
 def gen_cases(tier, seed):
     rng = random.Random(seed * 31 + 6)
     n = {"quick": 64, "search": 256, "thorough": 600}[tier]
     cases = [{"bseed": rng.randrange(1 << 48), "count": 20, "maxn": 70000 if i % 5 == 0 else 4000} for i in range(n)]
     cases += cc.mid_gen_cases(rng, tier, 0.5)
+    cases += cc.chain_gen_cases(rng, tier, 0.5)
     return cases
 
 def worker_init(ctx):
-    return cc.mid_worker(blk.worker_init(ctx), ctx)
+    return cc.chain_worker(cc.mid_worker(blk.worker_init(ctx), ctx), ctx)
 
 def strict(st, hist, out, src):
     a = st["oracle"].ask("strict", blk.hx(hist[-65536:]) if hist else "-", blk.hx(out))
@@ -170,9 +171,18 @@ def mid_judge(st):
         return None
     return judge
 
+def chain_judge(st):
+    def judge(kind, src, cap, level, r, consumed, out):
+        if r > 0:
+            return strict(st, b"", out, src[:consumed])
+        return None
+    return judge
+
 def run_case(st, case):
     if case.get("mode") == "hcmid":
         return cc.run_mid_case(st, case, mid_judge(st))
+    if case.get("mode") == "hcchain":
+        return cc.run_chain_case(st, case, chain_judge(st))
     rng = random.Random(case["bseed"])
     res = cc.new_res()
     for j in range(case["count"]):
